@@ -357,6 +357,19 @@ class Scenario:
                 inp = b"".join(b"update %s %s\n" % (n, self.oids[x].hex().encode()) for n, x in late_refs)
                 subprocess.run(["git", "--git-dir", gitdir, "update-ref", "--stdin"], input=inp, check=True, env=env,
                                stdout=subprocess.DEVNULL, stderr=subprocess.PIPE)
+        elif packed == "partial":
+            # the layout of a partial clone whose filter omitted nothing: every object sits in a promisor pack, a promisor
+            # remote is configured (never contacted: nothing is missing)
+            subprocess.run(["git", "--git-dir", gitdir, "repack", "-adq"], check=True, env=env,
+                           stdout=subprocess.DEVNULL, stderr=subprocess.DEVNULL)
+            pd = os.path.join(gitdir, "objects", "pack")
+            for fn in os.listdir(pd):
+                if fn.endswith(".pack"):
+                    open(os.path.join(pd, fn[:-5] + ".promisor"), "w").close()
+            for k, v in (("core.repositoryformatversion", "1"), ("extensions.partialClone", "origin"),
+                         ("remote.origin.url", "file:///nonexistent/upstream.git"), ("remote.origin.promisor", "true"),
+                         ("remote.origin.partialclonefilter", "blob:limit=1g")):
+                subprocess.run(["git", "--git-dir", gitdir, "config", k, v], check=True, env=env)
         elif packed:
             subprocess.run(["git", "--git-dir", gitdir, "repack", "-adq"], check=True, env=env,
                            stdout=subprocess.DEVNULL, stderr=subprocess.DEVNULL)
@@ -404,6 +417,8 @@ def run_with_fakegit(bins, scratch, sc_json, args, tag="s", timeout=60, extra_en
     env = clean_env({"PATH": fdir + ":" + os.environ.get("PATH", ""), "FAKEGIT_SCENARIO": scp, "FAKEGIT_LOG": logp})
     if extra_env:
         env.update(extra_env)
+        for k in [k for k, v in env.items() if v is None]:
+            del env[k]                      # None = the variable is absent from the run's environment
     wd = os.path.join(scratch, "wd")
     os.makedirs(wd, exist_ok=True)
     try:
